@@ -64,8 +64,10 @@ pub fn block_on<F: std::future::Future>(f: F) -> F::Output {
     let workers = WORKERS.with(|w| w.get());
     if workers > 0 {
         // multi-thread flavour, fresh per call
+        let trace = TRACE_HERE.with(|t| t.get());
         let rt = tokio::runtime::Builder::new_multi_thread()
             .worker_threads(workers)
+            .on_thread_start(move || TRACE_HERE.with(|t| t.set(trace)))
             .enable_all()
             .build()
             .expect("runtime");
@@ -84,6 +86,51 @@ pub fn block_on<F: std::future::Future>(f: F) -> F::Output {
 
 thread_local! {
     static LINGER: std::cell::Cell<bool> = const { std::cell::Cell::new(false) };
+    static TRACE_HERE: std::cell::Cell<bool> = const { std::cell::Cell::new(false) };
+}
+
+/// A `tracing` subscriber that takes everything down to TRACE level -- on the threads where
+/// [with_trace] switched it on -- and throws it away: what `conserve -D` or an embedding
+/// program's trace logging enables. Field expressions of `trace!(..)` calls are evaluated only
+/// where it is on.
+struct TraceSink;
+
+impl tracing::Subscriber for TraceSink {
+    fn register_callsite(&self, _: &'static tracing::Metadata<'static>) -> tracing::subscriber::Interest {
+        tracing::subscriber::Interest::sometimes()
+    }
+    fn enabled(&self, _: &tracing::Metadata<'_>) -> bool {
+        TRACE_HERE.with(|t| t.get())
+    }
+    fn max_level_hint(&self) -> Option<tracing::level_filters::LevelFilter> {
+        Some(tracing::level_filters::LevelFilter::TRACE)
+    }
+    fn new_span(&self, _: &tracing::span::Attributes<'_>) -> tracing::span::Id {
+        tracing::span::Id::from_u64(1)
+    }
+    fn record(&self, _: &tracing::span::Id, _: &tracing::span::Record<'_>) {}
+    fn record_follows_from(&self, _: &tracing::span::Id, _: &tracing::span::Id) {}
+    fn event(&self, _: &tracing::Event<'_>) {
+        TRACE_EVENTS.fetch_add(1, std::sync::atomic::Ordering::Relaxed);
+    }
+    fn enter(&self, _: &tracing::span::Id) {}
+    fn exit(&self, _: &tracing::span::Id) {}
+}
+
+pub static TRACE_EVENTS: std::sync::atomic::AtomicU64 = std::sync::atomic::AtomicU64::new(0);
+
+/// Install the sink for this process (once; nothing is enabled until [with_trace] says so).
+pub fn install_trace_sink() {
+    let _ = tracing::subscriber::set_global_default(TraceSink);
+}
+
+/// Run `f` with trace-level diagnostics switched on for this thread and for the threads of
+/// every runtime built inside.
+pub fn with_trace<T>(on: bool, f: impl FnOnce() -> T) -> T {
+    let old = TRACE_HERE.with(|t| t.replace(on));
+    let r = f();
+    TRACE_HERE.with(|t| t.set(old));
+    r
 }
 
 /// Run `f` with delete/gc calls keeping their runtime alive for a few milliseconds after the
@@ -99,7 +146,8 @@ pub fn with_linger<T>(f: impl FnOnce() -> T) -> T {
 pub fn block_on_fresh<F: std::future::Future>(f: F) -> F::Output {
     let workers = WORKERS.with(|w| w.get());
     let rt = if workers > 0 {
-        tokio::runtime::Builder::new_multi_thread().worker_threads(workers).enable_all().build()
+        let trace = TRACE_HERE.with(|t| t.get());
+        tokio::runtime::Builder::new_multi_thread().worker_threads(workers).on_thread_start(move || TRACE_HERE.with(|t| t.set(trace))).enable_all().build()
     } else {
         tokio::runtime::Builder::new_current_thread().enable_all().build()
     }
